@@ -26,9 +26,14 @@ fn client_resp_ty(ret: &str) -> String { let r = inner_of(ret, "tonic::Response<
 const KINDS: [&str; 4] = ["unary", "server_streaming", "client_streaming", "streaming"];
 
 #[derive(Default)]
-struct Body { lits: Vec<String>, calls: Vec<(String, String)>, qself_calls: Vec<String>, impls: Vec<(String, String)>, resp_types: Vec<String>, resp_streams: Vec<String>, gm: Vec<Vec<String>> }
+struct Body { lits: Vec<String>, calls: Vec<(String, String)>, qself_calls: Vec<String>, impls: Vec<(String, String)>, resp_types: Vec<String>, resp_streams: Vec<String>, gm: Vec<Vec<String>>, codecs: Vec<String> }
 impl<'ast> Visit<'ast> for Body {
     fn visit_lit_str(&mut self, l: &'ast syn::LitStr) { self.lits.push(l.value()); }
+    fn visit_local(&mut self, l: &'ast syn::Local) {
+        // `let codec = <path>::default();` : which codec this client method / server arm is generated with
+        if let syn::Pat::Ident(p) = &l.pat { if p.ident == "codec" { if let Some(init) = &l.init { let e = ts(&*init.expr); self.codecs.push(e.trim_end_matches("::default()").to_string()); } } }
+        syn::visit::visit_local(self, l);
+    }
     fn visit_expr_method_call(&mut self, m: &'ast syn::ExprMethodCall) {
         let n = m.method.to_string();
         if KINDS.contains(&n.as_str()) { self.calls.push((ts(&m.receiver), n)); }
@@ -74,7 +79,7 @@ impl<'ast> Visit<'ast> for Top {
                 self.client.push(json!({"fn": f.sig.ident.to_string(), "paths": paths, "gm": b.gm, "kinds": b.calls.iter().map(|c| c.1.clone()).collect::<Vec<_>>(),
                     "req_ty": client_req_ty(&args.join(",")), "resp_ty": client_resp_ty(&match &f.sig.output { syn::ReturnType::Type(_, t) => ts(t), _ => String::new() }),
                     "arg_streaming": args.join(",").contains("IntoStreamingRequest"), "ret_streaming": match &f.sig.output { syn::ReturnType::Type(_, t) => ts(t).contains("tonic::codec::Streaming<"), _ => false },
-                    "arg": args.join(","), "ret": match &f.sig.output { syn::ReturnType::Type(_, t) => ts(t), _ => String::new() }}));
+                    "codec": b.codecs, "arg": args.join(","), "ret": match &f.sig.output { syn::ReturnType::Type(_, t) => ts(t), _ => String::new() }}));
             } }
         }
         if let Some((_, path, _)) = &i.trait_ {
@@ -98,7 +103,7 @@ impl<'ast> Visit<'ast> for Top {
                     any = true;
                     let mut b = Body::default(); b.visit_expr(&arm.body);
                     self.server.push(json!({"path": s.value(), "impls": b.impls.iter().map(|(n, a)| json!({"trait": n, "args": a})).collect::<Vec<_>>(),
-                        "resp": b.resp_types, "resp_stream_items": b.resp_streams, "grpc_calls": b.calls.iter().filter(|c| c.0 == "grpc").map(|c| c.1.clone()).collect::<Vec<_>>(), "trait_calls": b.qself_calls}));
+                        "resp": b.resp_types, "resp_stream_items": b.resp_streams, "codec": b.codecs, "grpc_calls": b.calls.iter().filter(|c| c.0 == "grpc").map(|c| c.1.clone()).collect::<Vec<_>>(), "trait_calls": b.qself_calls}));
                 }
             }
         }
@@ -132,6 +137,25 @@ pub fn run(stim: &Value, rec: &Rec) {
         package: stim["package"].as_str().unwrap_or("").into(), comments: Comments::default(),
         methods: stim["methods"].as_array().cloned().unwrap_or_default().iter().map(m).collect(), options: Default::default() };
     let o = &stim["opts"];
+    if stim["manual"].as_bool().unwrap_or(false) {
+        // tonic_build::manual: the same descriptor through the builder API that has no .proto behind it; each method names its own codec
+        let mut sb = tonic_build::manual::Service::builder().name(stim["service"]["proto"].as_str().unwrap()).package(stim["package"].as_str().unwrap_or(""));
+        for v in stim["methods"].as_array().cloned().unwrap_or_default() {
+            let mut mb = tonic_build::manual::Method::builder().name(v["name"].as_str().unwrap()).route_name(v["proto"].as_str().unwrap())
+                .input_type("crate::In").output_type("crate::Out").codec_path(v["codec"].as_str().unwrap_or("crate::CodecA"));
+            if v["cs"].as_bool().unwrap_or(false) { mb = mb.client_streaming(); }
+            if v["ss"].as_bool().unwrap_or(false) { mb = mb.server_streaming(); }
+            sb = sb.method(mb.build());
+        }
+        let svc = sb.build();
+        let mut cg = tonic_build::CodeGenBuilder::new();
+        cg.emit_package(o["emit_package"].as_bool().unwrap_or(true)).use_arc_self(o["arc_self"].as_bool().unwrap_or(false)).generate_default_stubs(o["default_stubs"].as_bool().unwrap_or(false));
+        let mut buf = String::new();
+        if o["client"].as_bool().unwrap_or(true) { buf.push_str(&cg.generate_client(&svc, "").to_string()); buf.push('\n'); }
+        if o["server"].as_bool().unwrap_or(true) { buf.push_str(&cg.generate_server(&svc, "").to_string()); }
+        rec.ev(json!({"e":"generated","bytes":buf.len() as u64,"facts":extract(&buf)}));
+        return;
+    }
     let mut b = tonic_build::configure().build_client(o["client"].as_bool().unwrap_or(true)).build_server(o["server"].as_bool().unwrap_or(true))
         .use_arc_self(o["arc_self"].as_bool().unwrap_or(false)).generate_default_stubs(o["default_stubs"].as_bool().unwrap_or(false));
     if !o["emit_package"].as_bool().unwrap_or(true) { b = b.disable_package_emission(); }
